@@ -36,3 +36,15 @@ Theorem metadata_norm_defined_iff :
   (exists m', norm m = Ok m') <-> (exists eps, norm_endpoints (ed_endpoints m) = Ok eps).
 Proof. exact norm_fails_iff. Qed.
 Print Assumptions metadata_norm_defined_iff.
+
+(* the monitor evaluated on the implementation's generations (fixed point after
+   one generation; entity ID, rounded validity instant, cache duration, key
+   descriptors and standard-binding endpoints preserved, others blanked) is
+   always satisfied by the model *)
+Theorem metadata_norm_meets_monitor :
+  forall m,
+  zero_time <= round_ms (ed_valid_until m) < year10000 -> in_int64 (ed_cache_duration m) ->
+  mgcase_spec {| mg_in := m; mg_gen1 := ed_obs (norm m);
+                 mg_gen2 := match norm m with Ok m1 => ed_obs (norm m1) | _ => None end |} = true.
+Proof. exact norm_meets_spec. Qed.
+Print Assumptions metadata_norm_meets_monitor.
